@@ -9,7 +9,18 @@ LEVEL_NOTE_COMMON = ("Trusted: g++ 12, its sanitizer runtimes, libquadmath; the 
                      "from the property text, not copied from the library). Claim = held on the executions described in the evidence file.")
 
 # id -> (technique, level text, design section, extra note)
+PDE_TECH = ("runtime monitor with independent oracle: real evaluators driven with thousands of independently drawn admissible parameter vectors x points, "
+            "each value compared with the governing operator applied by 2nd-order Taylor jets (quad precision + running error bound) to the documented field")
 CHECKS = {
+    "C01": (PDE_TECH, "Exploration: 12 heat solutions x 2 precisions; source == rho cp(T) T_t - div(k(T) grad T) of the documented T by jets; exact_t == T; tolerance 2^20 u e.", "2/C01", ""),
+    "C02": (PDE_TECH, "Exploration: 8 Euler-family solutions (Cartesian steady/transient, axisymmetric steady/transient) x 2 precisions; conservative inviscid operators on the Roy-type fields; every exact_* compared.", "2/C02", ""),
+    "C03": (PDE_TECH + "; recorded deviation models for the known findings", "Exploration: 5 viscous solutions incl. the 205-parameter power-law solution (all parameters non-zero); Newtonian stress/Fourier flux operators in Cartesian and cylindrical form; the axisymmetric pair's recorded defects are matched by closed-form deviation models so any other change still fires.", "2/C03", ""),
+    "C04": (PDE_TECH, "Exploration: Laplace and Burgers; Laplacian / inviscid transient Burgers operator by jets on the documented fields; 2-argument exact fields == t-independent part.", "2/C04", ""),
+    "C05": (PDE_TECH + "; recorded deviation model for the f_v1 finding", "Exploration: rans_sa, free-shear and wall-bounded FANS-SA; full SA closure (f_v1 differentiated, modified S~, f_w, conservative diffusion, c_b2 term); free-shear 2-argument forms == 3-argument at t=0.", "2/C05", ""),
+    "C06": (PDE_TECH + "; invariant monitor (species sources sum to d(rho u)/dx) and call-recording callbacks", "Exploration: reacting Euler with 6 user callbacks K_eq(T); kinetics written from concentrations; callback must be invoked exactly once at masa_eval_exact_t(x) (bitwise).", "2/C06", ""),
+    "C07": (PDE_TECH + " and with an 8th-order finite difference of the API's own exact field; out-of-range indices", "Exploration: every gradient the 6 solutions provide, every direction, vs jet gradient (tight) and vs FD of masa_eval_exact_* (loose); 9 invalid indices incl. INT_MIN/INT_MAX must give -1 / NaN at every point.", "2/C07", ""),
+    "C09": ("runtime monitor: same workload as C01-C07 judged at the precision tolerance K u e (K=4) against the quad reference; double vs long double at identical inputs; finiteness of every value; -O0 and (thorough) -O2 builds",
+            "Exploration: all 31 PDE solutions, both precisions; a double temporary/literal in a long double path shows as ratio 5..2000 against K=4; observed maxima per evaluator recorded in the evidence.", "2/C09", ""),
     "C13": ("runtime monitor: random decorated/near-miss name strings vs independent normaliser; throw observed in-process (exceptions build) and exit status of forked child (exit() build); registry compared before/after",
             "Exploration: thousands of generated strings per run (valid decorations incl. adjacent/leading/trailing separator runs; 9 kinds of near-miss), both precisions, both error-handling builds; oracle is a 3-line normaliser.",
             "2/C13", ""),
